@@ -15,6 +15,10 @@
 #include <map>
 #include <sstream>
 #include <dirent.h>
+// glibc/libstdc++ declare the aligned entry points with alloc_align/assume_aligned attributes: keep the compiler from folding the alignment tests
+extern "C" { void* __libc_malloc(size_t); void* __libc_calloc(size_t, size_t); void* __libc_realloc(void*, size_t); void __libc_free(void*); void* __libc_memalign(size_t, size_t);
+             void* __libc_valloc(size_t); void* __libc_pvalloc(size_t); int __posix_memalign(void**, size_t, size_t) __attribute__((weak)); }
+static inline uintptr_t ADDR(const void* p) { __asm__ volatile("" : "+r"(p)); return (uintptr_t)p; }
 
 extern "C" {
   bool   mi_is_in_heap_region(const void* p) __attribute__((weak));
@@ -50,11 +54,11 @@ static void fillp(void* p, size_t n, unsigned char seed) { for (size_t i = 0; i 
 static void checkp(const char* who, void* p, size_t n, unsigned char seed) { for (size_t i = 0; i < n; i++) if (((unsigned char*)p)[i] != (unsigned char)(seed + i * 7)) fail("%s: byte %zu of %zu changed", who, i, n); }
 
 enum { A_malloc, A_calloc, A_realloc0, A_posix_memalign, A_aligned_alloc, A_memalign, A_valloc, A_pvalloc, A_reallocarray, A_strdup, A_strndup, A_getline, A_asprintf, A_memstream, A_realpath,
-       A_new, A_newarr, A_new_nothrow, A_newarr_nothrow, A_new_aligned, A_newarr_aligned, A_new_aligned_nothrow, A__N };
+       A_new, A_newarr, A_new_nothrow, A_newarr_nothrow, A_new_aligned, A_newarr_aligned, A_new_aligned_nothrow, A_newarr_aligned_nothrow, A_libc_malloc, A_libc_calloc, A_libc_memalign, A_libc_valloc, A_libc_pvalloc, A_posix_memalign2, A__N };
 static const char* A_names[] = { "malloc", "calloc", "realloc(NULL)", "posix_memalign", "aligned_alloc", "memalign", "valloc", "pvalloc", "reallocarray(NULL)", "strdup", "strndup", "getline", "asprintf", "open_memstream", "realpath",
-       "operator new", "operator new[]", "operator new(nothrow)", "operator new[](nothrow)", "operator new(align_val_t)", "operator new[](align_val_t)", "operator new(align_val_t,nothrow)" };
-enum { B_free, B_realloc_grow, B_realloc_shrink, B_usable_free, B_reallocarray, B_cfree, B_delete, B_deletearr, B_delete_sized, B_delete_nothrow, B_delete_aligned, B__N };
-static const char* B_names[] = { "free", "realloc(grow)", "realloc(shrink)", "malloc_usable_size+free", "reallocarray", "cfree", "operator delete", "operator delete[]", "operator delete(sized)", "operator delete(nothrow)", "operator delete(align_val_t)" };
+       "operator new", "operator new[]", "operator new(nothrow)", "operator new[](nothrow)", "operator new(align_val_t)", "operator new[](align_val_t)", "operator new(align_val_t,nothrow)", "operator new[](align_val_t,nothrow)", "__libc_malloc", "__libc_calloc", "__libc_memalign", "__libc_valloc", "__libc_pvalloc", "__posix_memalign" };
+enum { B_free, B_realloc_grow, B_realloc_shrink, B_usable_free, B_reallocarray, B_cfree, B_delete, B_deletearr, B_delete_sized, B_delete_nothrow, B_delete_aligned, B_deletearr_sized, B_deletearr_nothrow, B_deletearr_aligned, B_delete_sized_aligned, B_deletearr_sized_aligned, B_delete_aligned_nothrow, B_deletearr_aligned_nothrow, B_libc_free, B_libc_realloc, B__N };
+static const char* B_names[] = { "free", "realloc(grow)", "realloc(shrink)", "malloc_usable_size+free", "reallocarray", "cfree", "operator delete", "operator delete[]", "operator delete(sized)", "operator delete(nothrow)", "operator delete(align_val_t)", "operator delete[](sized)", "operator delete[](nothrow)", "operator delete[](align_val_t)", "operator delete(sized,align_val_t)", "operator delete[](sized,align_val_t)", "operator delete(align_val_t,nothrow)", "operator delete[](align_val_t,nothrow)", "__libc_free", "__libc_realloc" };
 
 static size_t g_align = 64;
 static void* do_alloc(int a, size_t n, size_t* eff) {
@@ -63,11 +67,11 @@ static void* do_alloc(int a, size_t n, size_t* eff) {
     case A_malloc: p = malloc(n); break;
     case A_calloc: p = calloc(n ? (n + 2) / 3 : 1, 3); *eff = (n ? (n + 2) / 3 : 1) * 3; if (p) for (size_t i = 0; i < *eff; i++) if (((char*)p)[i]) fail("calloc(%zu) not zero at %zu", *eff, i); break;
     case A_realloc0: p = realloc(nullptr, n); break;
-    case A_posix_memalign: { int rc = posix_memalign(&p, g_align, n); if (rc != 0) fail("posix_memalign(%zu,%zu) returned %d", g_align, n, rc); if ((uintptr_t)p % g_align) fail("posix_memalign alignment"); break; }
-    case A_aligned_alloc: *eff = (n + g_align - 1) / g_align * g_align; if (*eff == 0) *eff = g_align; p = aligned_alloc(g_align, *eff); if ((uintptr_t)p % g_align) fail("aligned_alloc alignment"); break;
-    case A_memalign: p = memalign(g_align * 2, n); if ((uintptr_t)p % (g_align * 2)) fail("memalign alignment"); break;
-    case A_valloc: p = valloc(n); if ((uintptr_t)p % 4096) fail("valloc alignment"); break;
-    case A_pvalloc: p = pvalloc(n); if ((uintptr_t)p % 4096) fail("pvalloc alignment"); *eff = (n + 4095) / 4096 * 4096; if (n == 0) *eff = 0; break;
+    case A_posix_memalign: { int rc = posix_memalign(&p, g_align, n); if (rc != 0) fail("posix_memalign(%zu,%zu) returned %d", g_align, n, rc); if (ADDR(p) % g_align) fail("posix_memalign alignment"); break; }
+    case A_aligned_alloc: *eff = (n + g_align - 1) / g_align * g_align; if (*eff == 0) *eff = g_align; p = aligned_alloc(g_align, *eff); if (ADDR(p) % g_align) fail("aligned_alloc alignment"); break;
+    case A_memalign: p = memalign(g_align * 2, n); if (ADDR(p) % (g_align * 2)) fail("memalign alignment"); break;
+    case A_valloc: p = valloc(n); if (ADDR(p) % 4096) fail("valloc alignment"); break;
+    case A_pvalloc: p = pvalloc(n); if (ADDR(p) % 4096) fail("pvalloc alignment"); *eff = (n + 4095) / 4096 * 4096; if (n == 0) *eff = 0; break;
     case A_reallocarray: p = reallocarray(nullptr, (n + 4) / 5, 5); *eff = (n + 4) / 5 * 5; break;
     case A_strdup: case A_strndup: { size_t L = (n > 0 ? n - 1 : 0); char* s = (char*)malloc(L + 1); memset(s, 'x', L); s[L] = 0; p = (a == A_strdup ? strdup(s) : strndup(s, L + 10)); if (p && strcmp((char*)p, s) != 0) fail("strdup contents"); free(s); *eff = L + 1; break; }
     case A_getline: { FILE* f = tmpfile(); size_t L = (n > 2 ? n - 2 : 1); for (size_t i = 0; i < L; i++) fputc('y', f); fputc('\n', f); rewind(f); char* line = nullptr; size_t cap = 0; ssize_t got = getline(&line, &cap, f); fclose(f);
@@ -79,9 +83,17 @@ static void* do_alloc(int a, size_t n, size_t* eff) {
     case A_newarr: p = ::operator new[](n); break;
     case A_new_nothrow: p = ::operator new(n, std::nothrow); break;
     case A_newarr_nothrow: p = ::operator new[](n, std::nothrow); break;
-    case A_new_aligned: p = ::operator new(n, std::align_val_t(g_align)); if ((uintptr_t)p % g_align) fail("aligned new alignment"); break;
-    case A_newarr_aligned: p = ::operator new[](n, std::align_val_t(g_align)); if ((uintptr_t)p % g_align) fail("aligned new[] alignment"); break;
+    case A_new_aligned: p = ::operator new(n, std::align_val_t(g_align)); if (ADDR(p) % g_align) fail("aligned new alignment"); break;
+    case A_newarr_aligned: p = ::operator new[](n, std::align_val_t(g_align)); if (ADDR(p) % g_align) fail("aligned new[] alignment"); break;
     case A_new_aligned_nothrow: p = ::operator new(n, std::align_val_t(g_align), std::nothrow); break;
+    case A_newarr_aligned_nothrow: p = ::operator new[](n, std::align_val_t(g_align), std::nothrow); if (ADDR(p) % g_align) fail("aligned new[](nothrow) alignment"); break;
+    // glibc's internal names of the same entry points (exported by glibc and forwarded by the override; found never called by the coverage run of round 7)
+    case A_libc_malloc: p = __libc_malloc(n); break;
+    case A_libc_calloc: p = __libc_calloc(n ? n : 1, 1); *eff = (n ? n : 1); if (p) for (size_t i = 0; i < *eff; i++) if (((char*)p)[i]) fail("__libc_calloc(%zu) not zero at %zu", *eff, i); break;
+    case A_libc_memalign: p = __libc_memalign(g_align, n); if (ADDR(p) % g_align) fail("__libc_memalign alignment"); break;
+    case A_libc_valloc: p = __libc_valloc(n); if (ADDR(p) % 4096) fail("__libc_valloc alignment"); break;
+    case A_libc_pvalloc: p = __libc_pvalloc(n); if (ADDR(p) % 4096) fail("__libc_pvalloc alignment"); *eff = (n + 4095) / 4096 * 4096; if (n == 0) *eff = 0; break;
+    case A_posix_memalign2: { if (!__posix_memalign) { p = malloc(n); break; } int rc = __posix_memalign(&p, g_align, n); if (rc != 0) fail("__posix_memalign(%zu,%zu) returned %d", g_align, n, rc); if (ADDR(p) % g_align) fail("__posix_memalign alignment"); break; }
   }
   return p;
 }
@@ -103,7 +115,16 @@ static void do_release(int a, int b, void* p, size_t n) {
     case B_deletearr: ::operator delete[](p); break;
     case B_delete_sized: ::operator delete(p, n); break;
     case B_delete_nothrow: ::operator delete(p, std::nothrow); break;
-    case B_delete_aligned: if ((uintptr_t)p % g_align == 0) ::operator delete(p, std::align_val_t(g_align)); else free(p); break;
+    case B_delete_aligned: if (ADDR(p) % g_align == 0) ::operator delete(p, std::align_val_t(g_align)); else free(p); break;
+    case B_deletearr_sized: ::operator delete[](p, n); break;
+    case B_deletearr_nothrow: ::operator delete[](p, std::nothrow); break;
+    case B_deletearr_aligned: if (ADDR(p) % g_align == 0) ::operator delete[](p, std::align_val_t(g_align)); else free(p); break;
+    case B_delete_sized_aligned: if (ADDR(p) % g_align == 0) ::operator delete(p, n, std::align_val_t(g_align)); else free(p); break;
+    case B_deletearr_sized_aligned: if (ADDR(p) % g_align == 0) ::operator delete[](p, n, std::align_val_t(g_align)); else free(p); break;
+    case B_delete_aligned_nothrow: if (ADDR(p) % g_align == 0) ::operator delete(p, std::align_val_t(g_align), std::nothrow); else free(p); break;
+    case B_deletearr_aligned_nothrow: if (ADDR(p) % g_align == 0) ::operator delete[](p, std::align_val_t(g_align), std::nothrow); else free(p); break;
+    case B_libc_free: __libc_free(p); break;
+    case B_libc_realloc: { void* q = __libc_realloc(p, n * 2 + 17); must_be_ours("__libc_realloc", q, n * 2 + 17); verify("__libc_realloc", q, n); free(q); break; }
   }
 }
 
